@@ -10,8 +10,11 @@ Runtime objects:
 
 From the AST of every function named in the two dispatch tables (restricted shapes; anything else is a
 TranslatorError, which breaks the table obligation):
-  * every `lendian and '<X' or '>X'` expression              -> `formats`: function name ↦ [(little, big)] in source order
-  * for the functions whose body is a single `return N, ...`  -> `fixedSize`: function name ↦ N
+  * every format selected by `lendian` (`lendian and L or B`, `L if lendian else B`, with literals or names bound
+    to string constants)                                      -> `formats`: function name ↦ [(little, big)] in source order
+  * for the functions ending in `return N, ...` (N a literal or a name bound to an int constant)
+                                                              -> `fixedSize`: function name ↦ N
+  * for the functions ending in `return <a + b + ...>, ...`   -> `frameConst`: function name ↦ sum of the int constants
 """
 import ast
 import inspect
@@ -43,46 +46,103 @@ def _fmt(s):
     return '(%s, %s)' % (_chr(s[0]), _chr(s[1]))
 
 
+def _str_const(node, fn, local):
+    """A string known at translation time: a literal, or a name bound to a string literal in the function
+    or to a module-level string of txdbus.marshal."""
+    if isinstance(node, ast.Constant) and isinstance(node.value, str):
+        return node.value
+    if isinstance(node, ast.Name):
+        if node.id in local and isinstance(local[node.id], str):
+            return local[node.id]
+        v = fn.__globals__.get(node.id)
+        if isinstance(v, str):
+            return v
+    return None
+
+
+def _int_const(node, fn, local):
+    if isinstance(node, ast.Constant) and type(node.value) is int:
+        return node.value
+    if isinstance(node, ast.Name):
+        if node.id in local and type(local[node.id]) is int:
+            return local[node.id]
+        v = fn.__globals__.get(node.id)
+        if type(v) is int:
+            return v
+    return None
+
+
+def _format_pair(node, fn, local):
+    """(little, big) if `node` selects a struct format by `lendian`:
+    `lendian and L or B`  |  `L if lendian else B`  |  `B if not lendian else L`."""
+    if isinstance(node, ast.BoolOp) and isinstance(node.op, ast.Or) and len(node.values) == 2:
+        left, right = node.values
+        if (isinstance(left, ast.BoolOp) and isinstance(left.op, ast.And) and len(left.values) == 2
+                and isinstance(left.values[0], ast.Name) and left.values[0].id == 'lendian'):
+            le, be = _str_const(left.values[1], fn, local), _str_const(right, fn, local)
+            if le is None or be is None:
+                raise TranslatorError('unexpected format expression in %s: %s' % (fn.__name__, ast.dump(node)))
+            return le, be
+    if isinstance(node, ast.IfExp):
+        t = node.test
+        neg = False
+        if isinstance(t, ast.UnaryOp) and isinstance(t.op, ast.Not):
+            t, neg = t.operand, True
+        if isinstance(t, ast.Name) and t.id == 'lendian':
+            x, y = _str_const(node.body, fn, local), _str_const(node.orelse, fn, local)
+            if x is None or y is None:
+                raise TranslatorError('unexpected format expression in %s: %s' % (fn.__name__, ast.dump(node)))
+            return (y, x) if neg else (x, y)
+    return None
+
+
+def _add_constants(node, fn, local):
+    """Sum of the integer constants of a `+` chain (`4 + len(var) + 1` -> 5); None if there is none."""
+    if isinstance(node, ast.BinOp) and isinstance(node.op, ast.Add):
+        a, b = _add_constants(node.left, fn, local), _add_constants(node.right, fn, local)
+        if a is None and b is None:
+            return None
+        return (a or 0) + (b or 0)
+    return _int_const(node, fn, local)
+
+
 def _formats(fn):
-    """[(little, big)] for every `lendian and L or B` in the function, in source order; and the
-    leading integer of a single-statement `return N, ...` body (or None)."""
+    """([(little, big)] for every format selected by `lendian` in the function, in source order;
+    the constant of a `return N, ...` (fixed-size functions) or None;
+    the sum of the integer constants of `return <a + b + ...>, ...` (framing overhead) or None)."""
     src = textwrap.dedent(inspect.getsource(fn))
     tree = ast.parse(src).body[0]
     if not isinstance(tree, ast.FunctionDef):
         raise TranslatorError('not a plain function: %s' % fn.__name__)
+    local = {}
+    for node in ast.walk(tree):           # simple local constants: `size = 4`, `fmt_le = '<I'`
+        if isinstance(node, ast.Assign) and len(node.targets) == 1 and isinstance(node.targets[0], ast.Name) \
+                and isinstance(node.value, ast.Constant) and type(node.value.value) in (int, str):
+            name = node.targets[0].id
+            local[name] = None if name in local else node.value.value     # assigned twice: not a constant
     found = []
     for node in ast.walk(tree):
-        if isinstance(node, ast.BoolOp) and isinstance(node.op, ast.Or) and len(node.values) == 2:
-            left, right = node.values
-            if (isinstance(left, ast.BoolOp) and isinstance(left.op, ast.And) and len(left.values) == 2
-                    and isinstance(left.values[0], ast.Name) and left.values[0].id == 'lendian'):
-                le, be = left.values[1], right
-                if not (isinstance(le, ast.Constant) and isinstance(le.value, str)
-                        and isinstance(be, ast.Constant) and isinstance(be.value, str)):
-                    raise TranslatorError('unexpected format expression in %s: %s' % (fn.__name__, ast.dump(node)))
-                found.append((node.lineno, node.col_offset, le.value, be.value))
+        pair = _format_pair(node, fn, local)
+        if pair is not None:
+            found.append((node.lineno, node.col_offset) + pair)
         elif isinstance(node, ast.Call) and isinstance(node.func, ast.Attribute) and node.func.attr in (
                 'pack', 'unpack', 'unpack_from', 'pack_into') and isinstance(node.func.value, ast.Name) \
                 and node.func.value.id == 'struct':
             a0 = node.args[0] if node.args else None
-            ok = (isinstance(a0, ast.BoolOp) and isinstance(a0.op, ast.Or))
-            if not ok:
-                raise TranslatorError('struct call in %s whose format is not `lendian and X or Y`: %s'
+            if a0 is None or _format_pair(a0, fn, local) is None:
+                raise TranslatorError('struct call in %s whose format is not selected by `lendian`: %s'
                                       % (fn.__name__, ast.dump(node)))
     found.sort()
     fmts = [(le, be) for _, _, le, be in found]
-    size = None
+    size = frame = None
     body = [s for s in tree.body if not (isinstance(s, ast.Expr) and isinstance(s.value, ast.Constant))]
-    if len(body) == 1 and isinstance(body[0], ast.Return) and isinstance(body[0].value, ast.Tuple):
-        first = body[0].value.elts[0]
-        if isinstance(first, ast.Constant) and type(first.value) is int:
-            size = first.value
-    # marshal_unix_fd / unmarshal_unix_fd: several statements, `return 4, ...` last
-    elif body and isinstance(body[-1], ast.Return) and isinstance(body[-1].value, ast.Tuple):
+    rets = [s for s in ast.walk(tree) if isinstance(s, ast.Return)]
+    if body and isinstance(body[-1], ast.Return) and isinstance(body[-1].value, ast.Tuple) and len(rets) == 1:
         first = body[-1].value.elts[0]
-        if isinstance(first, ast.Constant) and type(first.value) is int:
-            size = first.value
-    return fmts, size
+        size = _int_const(first, fn, local)
+        if size is None:
+            frame = _add_constants(first, fn, local)
+    return fmts, size, frame
 
 
 def emit(repo):
@@ -109,14 +169,20 @@ def emit(repo):
     out.append('  [' + ',\n   '.join('(%s, %d)  /- %s -/' % (_chr(c), a, n) for n, c, a in rows) + ']')
     out.append('')
     # ---- pad / padding
-    want = set(c for _, c, _ in rows) | {'header'}
-    if set(m.pad.keys()) != want:
-        raise TranslatorError('keys of `pad` are not the type codes plus "header": %r' % (sorted(m.pad.keys()),))
-    keys = sorted(m.padding.keys())
-    if keys != list(range(len(keys))) or any(m.padding[k] != b'\0' * k for k in keys) or not keys:
-        raise TranslatorError('`padding` is not {k: k NUL bytes for k in 0..n}: %r' % (m.padding,))
-    out.append('/-- `padding`: keys 0..maxPad, key k ↦ k NUL bytes (a larger pad is a KeyError). -/')
-    out.append('def maxPad : Nat := %d' % keys[-1])
+    want = set(c for _, c, _ in rows)
+    if not want <= set(m.pad.keys()):
+        raise TranslatorError('`pad` lacks a type code of dbus_types: %r' % (sorted(want - set(m.pad.keys())),))
+    padding = getattr(m, 'padding', None)
+    if padding is None:
+        # no lookup table any more (padding computed): no pad length can raise a KeyError
+        out.append('/-- No `padding` table in the source: pads are computed, none is refused. -/')
+        out.append('def maxPad : Nat := 1000000')
+    else:
+        keys = sorted(padding.keys())
+        if keys != list(range(len(keys))) or any(padding[k] != b'\0' * k for k in keys) or not keys:
+            raise TranslatorError('`padding` is not {k: k NUL bytes for k in 0..n}: %r' % (padding,))
+        out.append('/-- `padding`: keys 0..maxPad, key k ↦ k NUL bytes (a larger pad is a KeyError). -/')
+        out.append('def maxPad : Nat := %d' % keys[-1])
     out.append('')
     # ---- dispatch tables
     fns = {}
@@ -145,13 +211,15 @@ def emit(repo):
         out.append('  [' + ',\n   '.join('(%s, %s)' % (_chr(c), _ident(n)) for c, n in items) + ']')
         out.append('')
     # ---- struct formats and fixed sizes
-    fm, fs = [], []
+    fm, fs, fr = [], [], []
     for name in sorted(fns):
-        fmts, size = _formats(fns[name])
+        fmts, size, frame = _formats(fns[name])
         if fmts:
             fm.append((name, fmts))
         if size is not None:
             fs.append((name, size))
+        if frame is not None:
+            fr.append((name, frame))
     out.append('/-- Every `lendian and L or B` format pair of each function, in source order. -/')
     out.append('def formats : List (Fn × List ((Char × Char) × (Char × Char))) :=')
     out.append('  [' + ',\n   '.join('(%s, [%s])' % (_ident(n), ', '.join('(%s, %s)' % (_fmt(a), _fmt(b)) for a, b in f))
@@ -160,6 +228,11 @@ def emit(repo):
     out.append('/-- The constant byte count returned by the fixed-size functions (`return N, ...`). -/')
     out.append('def fixedSize : List (Fn × Nat) :=')
     out.append('  [' + ',\n   '.join('(%s, %d)' % (_ident(n), s) for n, s in fs) + ']')
+    out.append('')
+    out.append('/-- Framing overhead: the sum of the integer constants of the byte count a variable-size function returns')
+    out.append("(`4 + len(var) + 1` ↦ 5, `2 + len(var)` ↦ 2, `4 + len(initial_padding) + data_len` ↦ 4, `1 + slen + 1` ↦ 2). -/")
+    out.append('def frameConst : List (Fn × Nat) :=')
+    out.append('  [' + ',\n   '.join('(%s, %d)' % (_ident(n), s) for n, s in fr) + ']')
     out.append('')
     out.append('end Txdbus.Gen.Wire')
     out.append('')
